@@ -168,7 +168,7 @@ def analyse(fn, lib_stream_fns, prop, res):
         if b.get("noreturn"):
             continue
         t = b.get("term")
-        cond = strip(t["cond"]) if t and t.get("cond") and len(b["succs"]) == 2 else None
+        cond = strip(sa.effective_cond(t)) if t and t.get("cond") and len(b["succs"]) == 2 else None
         for si, s in enumerate(b["succs"]):
             if not isinstance(s, int):
                 continue
